@@ -147,18 +147,30 @@ def cbor_decode(data):
     s = BytesIO(data)
     b = s.read(1)[0]
     if b >= 0x40 and b < 0x58:
+        length_size = 0
         length = b - 0x40
-        return s.read(length)
-    if b == 0x58:
-        length = s.read(1)[0]
-        return s.read(length)
-    if b == 0x59:
-        length = int.from_bytes(s.read(2), "big")
-        return s.read(length)
-    if b == 0x60:
-        length = int.from_bytes(s.read(4), "big")
-        return s.read(length)
-    return None
+    elif b == 0x58:
+        length_size = 1
+    elif b == 0x59:
+        length_size = 2
+    elif b == 0x60:
+        length_size = 4
+    else:
+        return None
+    if length_size:
+        raw_length = s.read(length_size)
+        if len(raw_length) != length_size:
+            raise ValueError("CBOR byte string: truncated length")
+        length = int.from_bytes(raw_length, "big")
+    result = s.read(length)
+    # the head must be followed by exactly `length` bytes and nothing else
+    if len(result) != length:
+        raise ValueError(
+            f"CBOR byte string: expected {length} bytes, got {len(result)}"
+        )
+    if s.read(1):
+        raise ValueError("CBOR byte string: trailing bytes")
+    return result
 
 
 def encode_bech32(nums):
